@@ -404,7 +404,18 @@ impl<C: CellType> OptRebuild<'_, C> {
         let stack_len = stack.len();
         let mut low = cur_index;
         if let Some(next) = self.reverse.get(&var) {
-            for n in next.iter().copied().collect::<Vec<_>>() {
+            let order = next.iter().copied().collect::<Vec<_>>();
+            #[cfg(feature = "verif")]
+            crate::verif::trace(format!(
+                "order {} {}",
+                var,
+                order
+                    .iter()
+                    .map(|x| x.to_string())
+                    .collect::<Vec<_>>()
+                    .join(",")
+            ));
+            for n in order {
                 if let Some(v) = visited.get(&n) {
                     low = low.min(*v);
                 } else {
